@@ -62,6 +62,7 @@ class Run:
         # first event count of every distinct line of the modules whose objects are shared by all calls on an
         # instance (the facade, the renderer, the three parsers, the options mapping): planning of line pre-emptions
         self.shared_lines = [dict() for _ in range(n)]
+        self.all_lines = [dict() for _ in range(n)]   # every distinct library line (module-level state can live anywhere)
         self.rulers = {id(md.core.ruler): "core", id(md.block.ruler): "block",
                        id(md.inline.ruler): "inline", id(md.inline.ruler2): "inline2"}
 
@@ -82,6 +83,7 @@ class Run:
                     base = os.path.basename(code.co_filename)
                     if base in SHARED_MODULES:
                         run.shared_lines[t].setdefault((base, frame.f_lineno), c)
+                    run.all_lines[t].setdefault((code.co_filename, frame.f_lineno), c)
                 if c > run.budget:
                     raise Budget()
                 if run.limit[t] is not None and c >= run.limit[t]:
